@@ -27,6 +27,7 @@ from sa.explore import explore, witness
 from sa.loader import walk_shallow, walk_expr_shallow
 from sa.resolve import get_resolver
 from sa import rx
+from rules.common import host, host_data, host_sections, read_family, calls_qual
 
 READ = "las.LASFile.read"
 TOLERANCE_FUNCS = {"isclose", "allclose", "round", "around", "round_", "rint", "approx", "floor", "ceil", "trunc",
@@ -47,23 +48,23 @@ def _conjuncts(t):
 
 def _assign_loop(p):
     """the `for <arr> in <generator>` loop of LASFile.read that binds columns to curves"""
-    fr = p.func(READ)
     r = get_resolver(p)
-    cfg = build_cfg(p, fr)
-    prov = Provenance(cfg)
-    best = None
-    for sub in walk_shallow(fr.node):
-        if isinstance(sub, ast.For) and isinstance(sub.iter, ast.Name) and isinstance(sub.target, ast.Name):
-            nids = cfg.nodes_for(sub)
-            if not nids:
-                continue
-            atoms = prov.atoms(sub.iter, nids[0])
-            names = {a[1] for a in atoms if a[0] == "callname"}
-            if names & {"read_data_section_iterative_normal_engine", "read_data_section_iterative_numpy_engine"}:
-                best = sub
-    if best is None:
-        raise AnalysisError("cannot find the loop over the data-section columns in LASFile.read")
-    return fr, cfg, prov, best
+    for fr in read_family(p):
+        cfg = build_cfg(p, fr)
+        prov = Provenance(cfg)
+        best = None
+        for sub in walk_shallow(fr.node):
+            if isinstance(sub, ast.For) and isinstance(sub.iter, ast.Name) and isinstance(sub.target, ast.Name):
+                nids = cfg.nodes_for(sub)
+                if not nids:
+                    continue
+                atoms = prov.atoms(sub.iter, nids[0])
+                names = {a[1] for a in atoms if a[0] == "callname"}
+                if names & {"read_data_section_iterative_normal_engine", "read_data_section_iterative_numpy_engine"}:
+                    best = sub
+        if best is not None:
+            return fr, cfg, prov, best
+    raise AnalysisError("cannot find the loop over the data-section columns in LASFile.read or its helpers")
 
 
 def _null_var_defs(fr):
@@ -267,7 +268,7 @@ def rule_null_table(ctx):
               "decoder: flag raised only for 'NULL', None dropped from the numeric list, returns (regexps, numbers, flag)",
               "; ".join(problems))
     # the unpacking in read() keeps that order
-    fr = p.func(READ)
+    fr = host(p, lambda f: bool(calls_qual(p, f, {"reader.get_substitutions"})), "the call of get_substitutions")
     for s in walk_shallow(fr.node):
         if isinstance(s, ast.Assign) and isinstance(s.value, ast.Call) and "get_substitutions" in ast.unparse(s.value.func):
             t = s.targets[0]
@@ -461,7 +462,7 @@ def _wrap_var(fr):
 def rule_wrap_count(ctx):
     p = ctx.p
     r = get_resolver(p)
-    fr = p.func(READ)
+    fr = host_data(p)
     cfg = build_cfg(p, fr)
     wv = _wrap_var(fr)
     # engine calls and the variable passed as n_columns
@@ -601,7 +602,7 @@ def rule_tokenizer(ctx):
                       "fallback splitter comes from define_line_splitter",
                       "fallback splitter `%s` is not produced by define_line_splitter" % unparse(s.value))
     # call sites in read(): same splitter object as the reference engine
-    fr = p.func(READ)
+    fr = host_data(p)
     eng_args, sniff_args = set(), []
     for sub in walk_shallow(fr.node):
         if isinstance(sub, ast.Call):
@@ -687,7 +688,7 @@ def rule_trim(ctx, trim=True):
             ctx.bad("DATA.TRIM", site, fn, ret, "the %s splitter returns tokens with their padding blanks (%s): text cells "
                     "of a padded %s-delimited file differ from the unpadded file" % (key, why, key))
     # the default delimiter is a key
-    fr = p.func(READ)
+    fr = host_sections(p)
     for sub in walk_shallow(fr.node):
         if isinstance(sub, ast.Assign) and len(sub.targets) == 1 and isinstance(sub.targets[0], ast.Name) \
                 and "delimiter" in sub.targets[0].id and isinstance(sub.value, ast.Constant):
@@ -882,7 +883,7 @@ def rule_null_flat(ctx):
     to every column including the index) is exactly what get_substitutions returned - the header NULL never enters it"""
     p = ctx.p
     r = get_resolver(p)
-    fr = p.func(READ)
+    fr = host_data(p)
     cfg = build_cfg(p, fr)
     prov = Provenance(cfg)
     nullvars = _null_var_defs(fr)
@@ -981,3 +982,84 @@ def rule_read_subs(ctx):
         ctx.check(pols.get(key) == want, "DATA.READ-SUBS", "defaults.READ_POLICIES#%s" % key, fi, dmod.globals["READ_POLICIES"][0],
                   "read policy %r applies %s" % (key, want), "read policy %r is %r, documented %r" % (key, pols.get(key), want))
     ctx.floor("DATA.READ-SUBS", 4)
+
+
+def rule_space_tokens(ctx):
+    """DATA.TRIM restricted to the default SPACE splitter (used for C02: blank- or tab-separated numbers)"""
+    p = ctx.p
+    ff = p.func("reader.define_line_splitter")
+    env = module_env(p, "reader")
+    local = {}
+    for sub in walk_shallow(ff.node):
+        if isinstance(sub, ast.Assign) and len(sub.targets) == 1 and isinstance(sub.targets[0], ast.Name):
+            try:
+                local[sub.targets[0].id] = fold(sub.value, env)
+            except NotConst:
+                pass
+    table = None
+    for sub in walk_shallow(ff.node):
+        if isinstance(sub, ast.Dict) and sub.keys and all(isinstance(k, ast.Constant) and isinstance(k.value, str) for k in sub.keys):
+            table = sub
+    if table is None:
+        raise AnalysisError("cannot find the splitter table in reader.define_line_splitter")
+    for k, v in zip(table.keys, table.values):
+        if k.value != "SPACE":
+            continue
+        fn = ff.nested.get(v.id) if isinstance(v, ast.Name) else getattr(v, "_lambda_info", None)
+        if fn is None:
+            raise AnalysisError("SPACE splitter is not a local function")
+        rets = [s_.value for s_ in walk_shallow(fn.node) if isinstance(s_, ast.Return)] if not isinstance(fn.node, ast.Lambda) else [fn.node.body]
+        trimmed, why, positional = _tokens_trimmed(rets[0], local, env)
+        ctx.check(trimmed, "DATA.SPACE-TOKENS", "reader.define_line_splitter#SPACE", fn, rets[0],
+                  "the default splitter separates on every kind of whitespace (tabs included), as the fast engine does",
+                  "the default (SPACE) splitter no longer separates on all whitespace (%s): tab-separated data is read by the fast "
+                  "engine but not by the reference engine" % why)
+    ctx.floor("DATA.SPACE-TOKENS", 1)
+
+
+def rule_data_format(ctx):
+    """WR.DATA-FORMAT: a finite sample is written as `fmt % n` of the sample itself (no rounding / thresholding first);
+    only the data rows are wrapped - the ~A title line is written as one line"""
+    p = ctx.p
+    fw = p.func("writer.write")
+    fmtf = None
+    for q, fi in sorted(p.functions.items()):
+        if fi.module.name == "writer" and not isinstance(fi.node, ast.Lambda) and any(
+                isinstance(c, ast.Call) and isinstance(c.func, ast.Attribute) and c.func.attr == "isnan" for c in walk_shallow(fi.node)):
+            fmtf = fi
+    if fmtf is None:
+        raise AnalysisError("cannot find the data-cell formatter (isnan test) in lasio/writer.py")
+    n = fmtf.params()[0]
+    problems = []
+    for sub in walk_shallow(fmtf.node):
+        if isinstance(sub, (ast.Assign, ast.AugAssign)):
+            targets = sub.targets if isinstance(sub, ast.Assign) else [sub.target]
+            if any(isinstance(t, ast.Name) and t.id == n for t in targets):
+                problems.append("the sample is rewritten before formatting (`%s`): values are altered beyond the precision of the "
+                                "chosen format" % unparse(sub))
+        if isinstance(sub, ast.Call) and isinstance(sub.func, ast.Name) and sub.func.id in ("round", "abs", "int", "float") and sub.args \
+                and isinstance(sub.args[0], ast.Name) and sub.args[0].id == n:
+            if not isinstance(getattr(sub, "_parent", None), ast.Expr):
+                problems.append("`%s` is applied to the sample in the cell formatter" % unparse(sub))
+    fmts = [b for b in walk_shallow(fmtf.node) if isinstance(b, ast.BinOp) and isinstance(b.op, ast.Mod)]
+    if not any(isinstance(b.right, ast.Name) and b.right.id == n and isinstance(b.left, ast.Name) for b in fmts):
+        problems.append("a finite sample is not written as `<fmt> % <sample>`")
+    ctx.check(not problems, "WR.DATA-FORMAT", fmtf.qual + "#cell", fmtf, fmtf.node,
+              "a finite sample is formatted as fmt % sample, unmodified", "; ".join(dict.fromkeys(problems)))
+    # wrapping applies to the data rows only
+    host_fns = [fi for q, fi in sorted(p.functions.items()) if fi.module.name == "writer" and not isinstance(fi.node, ast.Lambda)]
+    wraps = []
+    for fi in host_fns:
+        for c in walk_shallow(fi.node):
+            if isinstance(c, ast.Call) and isinstance(c.func, ast.Attribute) and c.func.attr in ("wrap", "fill"):
+                wraps.append((fi, c))
+    problems = []
+    for fi, c in wraps:
+        lp = enclosing(c, (ast.For,))
+        arg = c.args[0] if c.args else None
+        if lp is None or not (isinstance(lp.iter, ast.Call) and "range" in ast.unparse(lp.iter.func)):
+            problems.append("`%s` wraps text outside the loop over the data rows (e.g. the ~A title line with the curve "
+                            "mnemonics: its continuation lines do not start with '~' and are read as data)" % unparse(c))
+    ctx.check(bool(wraps) and not problems, "WR.DATA-FORMAT", "writer#wrap-rows-only", fw, wraps[0][1] if wraps else fw.node,
+              "only the per-depth-step data rows are wrapped", "; ".join(problems) or "no wrapping of data rows found")
+    ctx.floor("WR.DATA-FORMAT", 2)
